@@ -783,6 +783,11 @@ func (f *Frame) enterLoop(li *loopInfo, back map[[2]*ssa.BasicBlock]bool) {
 	ex.cover = append(ex.cover, lh)
 	envHead := f.invEnv(li, func(p *ssa.Phi) Val { return headPhi[p] }, f.st, headVis)
 	for _, c := range clauses {
+		if g := clauseGroup(c); g != "" {
+			// grouped invariants are only assumed in queries of their own group
+			ex.assume(implies(and(lh, ex.useGroup(g)), substSX(c.Term, envHead)))
+			continue
+		}
 		ex.assume(implies(lh, substSX(c.Term, envHead)))
 	}
 	for _, a := range auto {
